@@ -151,12 +151,15 @@ claim("C07", "proof",
       "an algebra degree below the result's upper end; joins keep upper bounds. Expression level (C07_expr_sound, mutual induction over all "
       "expression forms): for every expression, abstract environment and degree assignment it bounds, every range propagate_degrees writes "
       "on any node bounds that node's degree in the algebra (operators, constant-condition switches, constant calls, inline arrays, array "
-      "accesses/updates with constant, non-constant or unknown indices incl. the first-assignment rule, phi). PARTIAL: path-level soundness is "
-      "not a Lean theorem; it is covered by (L2) node-by-node equality of real degree annotations with the Lean propagation model and (L1) "
-      "an independent least-fixpoint analysis of the algebra over the same SSA CFG (every claim must be >= the fixpoint; CS0013 only for "
-      "right-hand sides the fixpoint accepts).",
+      "accesses/updates with constant, non-constant or unknown indices incl. the first-assignment rule, phi). Path level (C07_path_sound, "
+      "C07_assignment_rhs; Lemmas/PathDegrees.lean): for every SSA CFG meeting the decidable hypothesis WfD, every budget of passes and every degree "
+      "state any execution can reach (signals/components degree 1, parameters constants, any substitution to a local executed in any order any number "
+      "of times), every range on every node of the CFG returned by the loop bounds the node's degree; the proof carries the block-order invariant the "
+      "first-assignment rule relies on. WfD is evaluated on every real dump by the proved-sound Boolean wfDB. Tie to the code: (L2) node-by-node "
+      "equality of real degree annotations with the Lean propagation model and (L1) an independent least-fixpoint analysis of the algebra over the "
+      "same SSA CFG (every claim must be >= the fixpoint; CS0013 never more often than right-hand sides the fixpoint accepts).",
       "Lean kernel + standard axioms; the harness that executes the real functions; the algebra-to-MvPolynomial link is not formalised.",
-      "Lean 4 proof over tables regenerated from the running code + annotation correspondence + fixpoint oracle", "5 (C07)")
+      "Lean 4 proof over tables regenerated from the running code (operator, expression and path level) + annotation correspondence + fixpoint oracle", "5 (C07)")
 
 claim("C06", "proof",
       "Lean 4 theorems (Props/C06.lean, corollaries of C16): for every prime p > 2 and all operands the operator transfer of value "
@@ -166,24 +169,28 @@ claim("C06", "proof",
       "level: for every expression, abstract environment and concrete environment agreeing with it, every claim propagate_values writes on "
       "any node is the value that node has (C06_expr_sound, mutual induction over all expression forms incl. the short-circuit flags), "
       "propagation changes annotations only, and a substitution keeps the environment in agreement incl. add_variable's non-constant rule "
-      "(C06_stmt_sound). PARTIAL: the lifting to all execution paths (and phi claims) is not a Lean theorem; it is decided per run by (L2) node-by-node equality of the real "
-      "value annotations with the Lean operational propagation model for each of the three primes and (L1) a reference interpreter executing "
-      "the same SSA CFGs under random valuations (every value an annotated node takes must be the claimed constant; invalid executions — "
-      "division by zero, failed assert, signal assigned twice — carry no obligation). Known finding F-C06-phi (hypothesis PhiComplete) is "
-      "reported as KNOWN-FINDING; any other false claim is a violation.",
+      "(C06_stmt_sound). Path level (C06_path_sound, C06_branch_condition; Lemmas/PathValues.lean): for every SSA CFG whose substitutions assign pairwise "
+      "different variables (SingleDef, decidable, evaluated on every real dump), every prime, every budget of passes and every state any execution can "
+      "reach (any order and number of executions of the substitutions, a phi taking any one of its arguments, calls/arrays evaluating to anything, "
+      "unassigned variables holding anything), every claim on every node of the CFG returned by the loop is right; the semantic assumption on phi "
+      "(PhiComplete) is part of the step relation. Tie to the code per run: (L2) node-by-node equality of the real value annotations with the Lean "
+      "operational propagation model for each of the three primes and (L1) a reference interpreter executing both the SSA CFG and the CFG before SSA "
+      "conversion under the same random valuations (every value an annotated node takes must be the claimed constant; invalid executions — division by "
+      "zero, failed assert, signal assigned twice — carry no obligation). F-C06-phi was repaired (2fdaae7): a recurrence is a violation.",
       "Lean kernel + standard axioms; the interpreter is a Python search oracle; literals >= p are outside the property's range and skipped.",
-      "Lean 4 proof (operator transfer = field semantics) + annotation correspondence + reference-interpreter oracle", "5 (C06)")
+      "Lean 4 proof (operator transfer = field semantics; expression, statement and path-level soundness) + annotation correspondence + reference-interpreter oracle", "5 (C06)")
 claim("C20", "proof",
       "Lean 4 theorems (Props/C20.lean) on the operational propagation model, whose pass budget is the point at which the time box fires: the "
       "loops are total for every budget, the zero budget leaves the CFG un-annotated, and once a pass changes nothing every larger budget "
       "(in particular the untimed run) returns exactly the same annotated blocks, so the early-stop states are the prefixes of one "
-      "deterministic sequence. PARTIAL: that every prefix state satisfies C06/C07 is decided per run with the verif pass-budget hook: for "
-      "every definition and every budget k up to the fixpoint, values and degrees independently, real annotations after k passes = model "
-      "(L2); each prefix state passes the C06 interpreter oracle and the C07 least-fixpoint oracle, and claims are monotone in k on a fixed "
-      "statement order (L1).",
-      "Lean kernel + standard axioms; the wall-clock trigger is replaced by a deterministic pass budget (hook); soundness of prefix states is "
-      "checked by oracles, not proved.",
-      "Lean 4 proof (prefix structure of the loops) + prefix-by-prefix correspondence under a pass-budget hook + oracles", "5 (C20)")
+      "deterministic sequence; and every prefix state satisfies C06 and C07: C20_value_prefix_sound / C20_degree_prefix_sound state the path-level "
+      "soundness theorems for every budget k (the invariant is kept by every single statement visit). Tie to the code per run with the verif "
+      "pass-budget hook: for every definition and every budget k up to the fixpoint, values and degrees independently, real annotations after k "
+      "passes = model (L2); each prefix state passes the C06 interpreter oracle and the C07 least-fixpoint oracle (the sweep continues over all budgets "
+      "after a correspondence break, to find the concrete false claim), and claims are monotone in k on a fixed statement order (L1).",
+      "Lean kernel + standard axioms; the wall-clock trigger is replaced by a deterministic pass budget (hook); the model is tied to the code by "
+      "correspondence (sampled).",
+      "Lean 4 proof (prefix structure of the loops; path-level soundness for every budget) + prefix-by-prefix correspondence under a pass-budget hook + oracles", "5 (C20)")
 
 claim("C08", "proof",
       "Lean 4 theorems (Props/C08.lean) on the model of find_signal_assignments over abstracted statement lists: exactly one report per "
